@@ -53,7 +53,7 @@ const ALL_CLASSES: [Class; 9] = [Class::Digits, Class::SignedDigits, Class::Deci
 const INT_TEXTS: [&str; 16] = ["0", "7", "007", "+5", "-0", "-12", "42", "9223372036854775807", "9223372036854775808", "-9223372036854775808", "-9223372036854775809", "12345678901234567890", "4294967297", "4294967299", "4294969316", "2147483648"];
 const REAL_TEXTS: [&str; 16] = ["0", "1.5", "-2.25", "1e5", ".5", "5.", "1e400", "-0.0", "0.1", "1.2.3", "+3.0", "1e-400", "123456789.123456789", "e5", "-", "."];
 const WORD_TEXTS: [&str; 14] = ["jan", "Feb", "MAR", "apr", "may", "june", "Jul", "sept", "oct", "Nov", "dec", "abc", "x", "December"];
-const FREE_TEXTS: [&str; 12] = ["", "a", "abc", "hello", "12", "1.5", "true", "x=1", "é", "a-b", "2021", "z9"];
+const FREE_TEXTS: [&str; 15] = ["", "a", "abc", "hello", "12", "1.5", "true", "x=1", "é", "a-b", "2021", "z9", "50%\r100%", "a\rb", "\r"];
 
 fn sample(t: &mut Tape, class: Class) -> String {
     match class {
@@ -483,7 +483,8 @@ impl Property for C01 {
                 }
             }
             // the row a query sees: `SELECT *` through the executor for the first line of each case
-            if li == 0 {
+            // (a line ending in CR would lose it as part of a CRLF line end when read from a file)
+            if li == 0 && !line.ends_with('\r') {
                 if let (Some(admitted), Ok(st)) = (model_admitted(&model), parse_statement("SELECT * FROM t")) {
                     let files = scratch_files(ctx, "c01", &[lines_to_bytes(&[line.clone()])]);
                     let out = run_batch(&tables, &st, &files, RunOptions::default()).map_err(|p| Failure::new(format!("panic: {}", crate::run::panic_class(&p)), format!("SELECT * panicked: {}\n  {}", p, context)))?;
